@@ -49,9 +49,15 @@ func ChildMain(partName, tier string, seed uint64, from, to int, out string) int
 		res.Case = idx
 		_ = enc.Encode(childLine{Result: &res})
 		_ = f.Sync()
+		if res.RestartChild && i+1 < to {
+			return ExitRestart
+		}
 	}
 	return 0
 }
+
+// ExitRestart is the exit code of a child that wants to be restarted for the remaining cases.
+const ExitRestart = 75
 
 type job struct {
 	part     *Part
@@ -167,6 +173,15 @@ func (rs *runState) runJob(j job) {
 			}
 			rs.collectRace(tag)
 			return
+		}
+		if ee, ok := werr.(*exec.ExitError); ok && ee.ExitCode() == ExitRestart && !timedOut {
+			next := from
+			for finished[next] && next < j.to {
+				next++
+			}
+			rs.collectRace(tag)
+			from = next
+			continue
 		}
 		// child died or was killed: attribute to the case in flight
 		culprit := started
